@@ -128,3 +128,8 @@ ENTRIES += [
 ENTRIES += [
     B('ftp-path-unquote-surrogateescape', "            parts = [urllib.parse.unquote(part) for part in parts]\n", "            parts = [urllib.parse.unquote(part, errors='surrogateescape')\n                     for part in parts]\n", 'C09-D3', 'wpull/path.py'),
 ]
+
+ENTRIES += [
+    B('regress-symlink-target-untested', "        if not link_target:\n            # A listing can name a link without telling where it points\n            # (MLSD 'type=symlink; name').\n            _logger.debug('No target for symlink {}.', link_name)\n            return\n\n", "", 'C09-D2', 'wpull/processor/ftp.py'),
+    N('symlink-typeerror-handled', "            except (OSError, ValueError) as error:\n                # The name comes from the listing", "            except (OSError, ValueError, TypeError) as error:\n                # The name comes from the listing", 'wpull/processor/ftp.py'),
+]
